@@ -4,6 +4,7 @@
 //! instance. Everything observed is logged raw as NDJSON; the judge is spec/Trace_Overlay.tla.
 //!
 //!   ovl run    <workdir> <scenarios.ndjson> <out.ndjson>     replay scenarios (TLC exported or replay files)
+//!   ovl stacks <workdir> <out.ndjson>                        systematic layer stacks (union rules) and copy-up chains
 //!   ovl random <workdir> <out.ndjson>                        seeded random driver (VERIF_SEED, OVL_SCEN, OVL_OPS, OVL_BIG)
 //!
 //! File contents are sequences of blocks of B bytes; block (s, i) of stream s is a fixed
@@ -874,7 +875,8 @@ impl Scn {
 // ------------------------------------------------------------------------------------------------
 // random driver
 
-const DMODES: [u32; 4] = [0o755, 0o700, 0o775, 0o711];
+// sticky directories included (no set-gid ones: children would inherit the bit on the host)
+const DMODES: [u32; 6] = [0o755, 0o700, 0o775, 0o711, 0o1777, 0o1770];
 const FMODES: [u32; 4] = [0o644, 0o600, 0o664, 0o755];
 
 struct Gen {
@@ -1026,6 +1028,79 @@ impl Gen {
     }
 }
 
+/// Systematic scenarios (no randomness in the shapes, the seed only rotates the opaque marker names):
+///  * union rules: one top-level name "a" whose entry in each layer is one of {absent, file, directory with a
+///    child named after the layer, opaque directory with such a child, whiteout, symlink}: every combination over
+///    upper + 2 lowers (216) and over 2 lowers without an upper (36); no operations, the initial View is judged;
+///  * copy-up: lower-only directory chains with sticky / unusual modes and operations that copy up through them.
+fn stacks(seed: u64) -> Vec<Value> {
+    let kinds = ["none", "file", "dir", "odir", "wh", "sym"];
+    let child = ["a", "b", "c"];
+    let marks = ["trusted", "user", "fuse"];
+    let dmodes = [0o755u32, 0o1777, 0o750, 0o1770, 0o711, 0o1755];
+    let mut out = Vec::new();
+    let mut idx = 0u64;
+    let mut entry = |k: &str, layer: usize, idx: u64, rows: &mut Vec<Value>| {
+        let tag = format!("S{}_{}", idx, layer);
+        match k {
+            "file" => rows.push(json!({"p":["a"],"t":"file","m":0o640 + layer as u32,"c":[[tag, 0, 1]]})),
+            "dir" | "odir" => {
+                let opq = if k == "odir" { marks[((idx + seed + layer as u64) % 3) as usize] } else { "" };
+                rows.push(json!({"p":["a"],"t":"dir","m":dmodes[((idx + layer as u64) % 6) as usize],"opq":opq}));
+                rows.push(json!({"p":["a", child[layer]],"t":"file","m":0o600 + layer as u32,"c":[[tag, 0, 1]]}));
+            }
+            "wh" => rows.push(json!({"p":["a"],"t":"wh"})),
+            "sym" => rows.push(json!({"p":["a"],"t":"sym","tg":format!("tg{}", layer)})),
+            _ => {}
+        }
+    };
+    for u in kinds.iter() {
+        for l1 in kinds.iter() {
+            for l2 in kinds.iter() {
+                idx += 1;
+                let mut layers = vec![Vec::new(), Vec::new(), Vec::new()];
+                entry(u, 0, idx, &mut layers[0]);
+                entry(l1, 1, idx, &mut layers[1]);
+                entry(l2, 2, idx, &mut layers[2]);
+                out.push(json!({"id": format!("u3_{}_{}_{}", u, l1, l2), "B": 16, "upper": true, "names": ["a","b","c"], "depth": 3,
+                                "layers": layers, "ops": []}));
+            }
+        }
+    }
+    for l1 in kinds.iter() {
+        for l2 in kinds.iter() {
+            idx += 1;
+            let mut layers = vec![Vec::new(), Vec::new()];
+            entry(l1, 1, idx, &mut layers[0]);
+            entry(l2, 2, idx, &mut layers[1]);
+            out.push(json!({"id": format!("n2_{}_{}", l1, l2), "B": 16, "upper": false, "names": ["a","b","c"], "depth": 3,
+                            "layers": layers, "ops": []}));
+        }
+    }
+    // copy-up through lower-only directories with their original (also sticky) modes
+    let chains: [(u32, u32); 4] = [(0o1777, 0o1770), (0o1755, 0o700), (0o711, 0o1777), (0o750, 0o775)];
+    for (ci, (ma, mb)) in chains.iter().enumerate() {
+        let lower = json!([
+            {"p":["a"],"t":"dir","m":ma}, {"p":["a","b"],"t":"dir","m":mb},
+            {"p":["a","b","a"],"t":"file","m":0o640,"c":[[format!("C{}", ci), 0, 2]]},
+            {"p":["a","b","b"],"t":"sym","tg":"cu"}, {"p":["a","a"],"t":"file","m":0o604,"c":[[format!("D{}", ci), 0, 1]]}
+        ]);
+        let opsets: Vec<Vec<Value>> = vec![
+            vec![json!({"op":"create","p":["a","b","c"],"m":0o644,"excl":true}), json!({"op":"chmod","p":["a","a"],"m":0o600})],
+            vec![json!({"op":"mkdir","p":["a","b","c"],"m":0o1777}), json!({"op":"rmdir","p":["a","b","c"]})],
+            vec![json!({"op":"write","p":["a","b","a"],"off":1,"c":[[format!("W{}", ci), 0, 2]]}), json!({"op":"truncate","p":["a","b","a"],"len":1})],
+            vec![json!({"op":"link","src":["a","b","b"],"p":["a","c"]}), json!({"op":"unlink","p":["a","b","b"]})],
+            vec![json!({"op":"symlink","p":["a","b","c"],"tg":"x"}), json!({"op":"setxattr","p":["a","b"],"n":"user.j","v":"1"})],
+            vec![json!({"op":"unlink","p":["a","b","a"]}), json!({"op":"mknod","p":["a","b","a"],"m":0o640,"kind":"reg"})],
+        ];
+        for (oi, ops) in opsets.into_iter().enumerate() {
+            out.push(json!({"id": format!("cu{}_{}", ci, oi), "B": 16, "upper": true, "names": ["a","b","c"], "depth": 3,
+                            "layers": [[], lower.clone()], "ops": ops}));
+        }
+    }
+    out
+}
+
 fn main() {
     let args: Vec<String> = std::env::args().collect();
     if args.len() < 4 {
@@ -1047,6 +1122,20 @@ fn main() {
             for (k, line) in text.lines().filter(|l| !l.trim().is_empty()).enumerate() {
                 let scn: Value = serde_json::from_str(line).expect("scenario json");
                 let mut s = Scn::setup(&work, k as u64 + 1, &scn, &mut tr);
+                s.observe(&mut tr);
+                if let Some(ops) = scn["ops"].as_array() {
+                    for op in ops {
+                        s.step(op, &mut tr);
+                    }
+                }
+                s.finish();
+            }
+            tr.flush();
+        }
+        "stacks" => {
+            let mut tr = Trace::create(&args[3]);
+            for (k, scn) in stacks(env_u64("VERIF_SEED", 1)).iter().enumerate() {
+                let mut s = Scn::setup(&work, k as u64 + 1, scn, &mut tr);
                 s.observe(&mut tr);
                 if let Some(ops) = scn["ops"].as_array() {
                     for op in ops {
